@@ -233,6 +233,19 @@ def transform_expression(
     return formatted_expression, symbolic_vars
 
 
+def _symbols_namespace(symbolic_vars: Optional[Dict[str, Symbol]]) -> Dict[str, Symbol]:
+    """The names standing for the PDDL fluents, bound to their symbols.
+
+    Note:
+        Given to the sympy parser so that a name such as "fu" (the fluent (f ?u)) or "beta" is read as the fluent's symbol
+        and not as the sympy function of the same name.
+
+    :param symbolic_vars: the mapping between the PDDL fluents and the symbols representing them.
+    :return: the mapping between the symbols' names and the symbols.
+    """
+    return {str(symbol): symbol for symbol in (symbolic_vars or {}).values()}
+
+
 def simplify_complex_numeric_expression(
     complex_numeric_expression: str, decimal_digits: int = DEFAULT_DECIMAL_DIGITS
 ) -> str:
@@ -245,7 +258,9 @@ def simplify_complex_numeric_expression(
     :return: the simplified expression in PDDL format.
     """
     left_part_str, symbolic_vars = transform_expression(complex_numeric_expression)
-    left_part_expr = parse_expr(left_part_str)
+    left_part_expr = parse_expr(
+        left_part_str, local_dict=_symbols_namespace(symbolic_vars)
+    )
     simplified_expression = simplify(left_part_expr)
     return convert_expr_to_pddl(
         simplified_expression, symbolic_vars, decimal_digits=decimal_digits
@@ -266,8 +281,13 @@ def simplify_equality(
     transformed_right_expr, symbolic_vars = transform_expression(
         right_expr, symbolic_vars
     )
-    transformed_left_expr = parse_expr(transformed_left_expr, evaluate=False)
-    transformed_right_expr = parse_expr(transformed_right_expr, evaluate=False)
+    symbols_namespace = _symbols_namespace(symbolic_vars)
+    transformed_left_expr = parse_expr(
+        transformed_left_expr, local_dict=symbols_namespace, evaluate=False
+    )
+    transformed_right_expr = parse_expr(
+        transformed_right_expr, local_dict=symbols_namespace, evaluate=False
+    )
     equation = Eq(transformed_left_expr, transformed_right_expr)
     simplified_equation = simplify(equation)
 
@@ -317,8 +337,13 @@ def simplify_inequality(
     transformed_right_str, symbolic_vars = transform_expression(
         right_side_expression, symbolic_vars
     )
-    left_expr = parse_expr(transformed_left_str, evaluate=False)
-    right_expr = parse_expr(transformed_right_str, evaluate=False)
+    symbols_namespace = _symbols_namespace(symbolic_vars)
+    left_expr = parse_expr(
+        transformed_left_str, local_dict=symbols_namespace, evaluate=False
+    )
+    right_expr = parse_expr(
+        transformed_right_str, local_dict=symbols_namespace, evaluate=False
+    )
 
     for assumption_str in assumptions:
         # Parse the strings as sympy expressions
@@ -326,8 +351,9 @@ def simplify_inequality(
             assumption_str, symbolic_vars
         )
         lhs, rhs = assumption_expression.split("=")
-        lhs = simplify(sympify(lhs))
-        rhs = simplify(sympify(rhs))
+        symbols_namespace = _symbols_namespace(symbolic_vars)
+        lhs = simplify(sympify(lhs, locals=symbols_namespace))
+        rhs = simplify(sympify(rhs, locals=symbols_namespace))
         assumption = simplify(Eq(lhs, rhs))
         if not isinstance(assumption, Eq):
             # a trivial or contradictory assumption (simplified to a boolean constant) cannot be substituted.
